@@ -308,6 +308,26 @@ Theorem C16_all_flags_from_prefixes : forall g roots,
 Proof. exact (fun g roots OK => conj (flags_decode_all g roots OK) (hc_decode_all g roots OK)). Qed.
 Print Assumptions C16_all_flags_from_prefixes.
 
+(* The property sentence end to end, in code-level terms.  Tree.format with a
+   title prints [title] ++ zip (rel_prefixes g true f) (pre_f f)
+   (C16_tree_lines); for a forest with unique node identities and a style
+   with common widths, the prefix of EVERY node t encodes: its depth
+   (calc_depth), for every member of t.get_parent_list(), in that order,
+   whether it is its parent's last child (identity test), whether t itself is
+   one, and - in styles that distinguish it - whether t has children. *)
+Theorem C16_prefixes_encode_depth_and_flags : forall f g,
+  NoDup (ids f) -> style_okb g = true ->
+  Forall2 (fun p t => exists nc,
+             locate_f (rid t) f = Some nc /\ c_self nc = t
+             /\ decode_depth g p = q_depth nc
+             /\ (anc_distinct g = true ->
+                 decode_anc g p = map (fun a => Some (is_last_located f a)) (q_parent_list nc false false))
+             /\ (last_distinct g = true -> dec_last g (own_part g p) = Some (q_is_last nc))
+             /\ (hc_distinct g = true -> dec_hc g (own_part g p) = Some (q_has_children nc)))
+          (rel_prefixes g true f) (pre_f f).
+Proof. exact tree_prefixes_encode. Qed.
+Print Assumptions C16_prefixes_encode_depth_and_flags.
+
 (* ================================================================== *)
 (* 3. Obligations on the GENERATED style table (finite: vm_compute)     *)
 (* ================================================================== *)
